@@ -140,7 +140,7 @@ func (e *env) refresh(specs []string) {
 var walletNames = []string{"Wallet 1", "Wallet 2", "W", "XW", "My Wallet 1"} // two of them end with the name of another
 var acctNames = []string{"a", "b", "aX", "Xb", "Validator 1", "Validator 12", "Validator 2", "XValidator 1", "Val", "ab", "ba"}
 var acctExprs = []string{"a", "Validator 1", "Validator.*", "Validator [12]", "Validator.*[02468]", ".*", "(a|b)", "Validator (1|2)", "Val.*", "a.", "[ab]+", "a?b"}
-var bareAlts = []string{"a|b", "Validator 1|Validator 2", "Val|b"}
+var bareAlts = []string{"a|b", "Validator 1|Validator 2", "Val|b", "(a)|(b)", "(Validator 1)|(Validator 2)", "(Val)|b"}
 
 type spec struct {
 	Text    string
